@@ -25,4 +25,4 @@ Deliverables, all under {wt}/_out/ (create it):
  - patch.diff   : `git diff` of your source change only (no test/demo files), applicable with `git apply` at the worktree's HEAD
  - the demonstration file(s) + a one-line command in README.md saying how to run it from the worktree root (e.g. copy demo_test.go into ./tls and run `go test -run TestDemo ./tls`)
  - README.md    : what you changed, why it breaks the property, what it needs in order to manifest, which existing tests you ran (before/after results)
-Before finishing: verify the demo fails with the patch and passes after `git stash`/reverting it, and leave the worktree with your source change applied and the demo files only under _out/. Reply with a 10-line summary.""")
+NEVER use `git stash` (the stash is shared between worktrees of this repository and other people are working in sibling worktrees): to test without your change use `git diff > _out/patch.diff; git apply -R _out/patch.diff; ...; git apply _out/patch.diff`. Before finishing: verify the demo fails with the patch and passes after reverting it that way, and leave the worktree with your source change applied and the demo files only under _out/. Reply with a 10-line summary.""")
